@@ -52,7 +52,8 @@ CHECKS = {
              'verification fails; per kind the flag is false exactly on the violating records (min/max, type -> all, '
              'max_nulls -> the nulls, no_duplicates -> every member of a duplicated group; nulls flagged false only by '
              'type/null-count rules); each record count equals its number of false flags; passing + failing = rows; an '
-             'output file exists afterwards iff something failed. detect_df on generated pairs (flags, n_failures, '
+             'output file exists afterwards iff something failed; at dataset level no flag column is produced iff '
+             'verification of the same fields counts no failure. detect_df on generated pairs (flags, n_failures, '
              'counts, output frame and CSV/parquet file, in_place, stale files) is compared with the extracted model '
              'and with a per-record statement of each constraint.',
         note='pandas vector comparisons and file writing are not modelled; known finding: default repair=True '
@@ -63,7 +64,9 @@ CHECKS = {
     'C01': dict(
         text='Theorem closure: for every well-typed abstract column (any length, null pattern, values incl. +-inf), '
              'strict or sloppy, any epsilon, every constraint produced by the discovery rules verifies on that column '
-             '(rex relative to C03). The model is tied to tdda by the C02/C07 correspondence layers and here by '
+             '(rex relative to C03); dataset level, for any number of fields and records: verification counts no failure '
+             'and detection produces no flag column, flags no record and writes no file (C01_dataset_no_failures, '
+             'C01_detect_no_failing_records). The model is tied to tdda by the C02/C07 correspondence layers and here by '
              'end-to-end runs discover_df -> {dict, .tdda file} -> verify_df/detect_df x repair on/off on generated frames.',
         note='pandas aggregation/dtype inference, .tdda file I/O and rexpy are modelled or oracles; dtype classes that '
              'tdda does not classify as a recognised type under pandas 3 are recorded findings.',
